@@ -99,6 +99,14 @@ class Dyn(Dom):
         self.tags = tuple(tags)
 
 
+class Nested(Dom):
+    """The argument list of an aggregate: scalars and rectangular ranges of unknown shape,
+    whose leaves are dynamically typed cells (blank, logical, int, float, text, error value)."""
+
+    def __init__(self, alts=('none', 'bool', 'int', 'float', 'str', 'err')):
+        self.alts = tuple(alts)
+
+
 class Abstract(Dom):
     """An abstract callable parameter with a contract of its own."""
 
